@@ -944,3 +944,118 @@ func init() {
 	Plans["C08"] = planC08
 	tokenSets["blocks2noTab"] = []string{"# ", "---", "\n", "a", "1. ", "  ", "<div>", "[a]: b", "|", "~~~"}
 }
+
+// ---- C09 ----
+
+func hasAny(s, set string) bool {
+	for i := 0; i < len(s); i++ {
+		for j := 0; j < len(set); j++ {
+			if s[i] == set[j] {
+				return true
+			}
+		}
+	}
+	return false
+}
+
+func planC09(tier string, seed int64) (*Plan, error) {
+	p := &Plan{MustReach: []string{"done"}}
+	thorough := tier == "thorough"
+	core, gfm := cfg("core", "", "unsafe"), cfg("gfm", "", "")
+	var jobs []interp.Job
+	for _, c := range []string{core, gfm} {
+		for an := 0; an <= 2; an++ {
+			for bn := 0; bn <= 2; bn++ {
+				if an+bn <= 3 && (thorough || an+bn < 3 || (c == core && an == 2)) {
+					jobs = append(jobs, job("H_c09_indep", "cfg", c, "an", an, "bn", bn))
+				}
+			}
+		}
+	}
+	if thorough {
+		jobs = append(jobs, job("H_c09_indep", "cfg", core, "an", 2, "bn", 2))
+		jobs = append(jobs, job("H_c09_indep", "cfg", core, "an", 3, "bn", 0))
+		jobs = append(jobs, job("H_c09_indep", "cfg", core, "an", 0, "bn", 3))
+	}
+	alphas := []string{"- \na>", "1.\n a#", "=-\na ", "*_\na\\", "+ \n>a", "a|-\n:"}
+	na, nb := 3, 2
+	if thorough {
+		na, nb = 4, 3
+	}
+	for i, al := range alphas {
+		c := core
+		if i == len(alphas)-1 {
+			c = gfm
+		}
+		jobs = append(jobs, job("H_c09_indep", "cfg", c, "an", na, "bn", nb, "alphaA", al, "alphaB", al))
+		if thorough || (i+int(seed))%3 == 0 {
+			jobs = append(jobs, job("H_c09_indep", "cfg", c, "an", na+1, "bn", 1, "alphaA", al, "alphaB", alphas[(i+1)%len(alphas)]))
+		}
+		if thorough || (i+int(seed))%3 == 1 {
+			jobs = append(jobs, job("H_c09_indep", "cfg", c, "an", 1, "bn", na+1, "alphaA", alphas[(i+1)%len(alphas)], "alphaB", al))
+		}
+	}
+	docs, err := LoadCorpus()
+	if err != nil {
+		return nil, err
+	}
+	var okA, okB []Doc
+	for _, d := range docs {
+		if !hasAny(d.Markdown, "[\r") && len(d.Markdown) > 0 {
+			okB = append(okB, d)
+			if !hasAny(d.Markdown, "`~<") {
+				okA = append(okA, d)
+			}
+		}
+	}
+	nwin := 60
+	if thorough {
+		nwin = 1200
+	}
+	for i, sl := range corpusSlice(okA, seed, 120, nwin) {
+		c := []string{core, gfm}[i%2]
+		jobs = append(jobs, job("H_c09_indep", "cfg", c, "seedA", sl.D.Markdown, "posA", sl.Pos, "wA", 1, "bn", 1))
+	}
+	for i, sl := range corpusSlice(okB, seed+1, 120, nwin) {
+		c := []string{core, gfm}[i%2]
+		jobs = append(jobs, job("H_c09_indep", "cfg", c, "seedB", sl.D.Markdown, "posB", sl.Pos, "wB", 1, "an", 1))
+	}
+	// pairs of corpus documents, one byte free in each
+	ra := rand.New(rand.NewSource(seed + 2))
+	for i := 0; i < nwin/2; i++ {
+		da, db := okA[ra.Intn(len(okA))], okB[ra.Intn(len(okB))]
+		if len(da.Markdown) > 100 || len(db.Markdown) > 100 {
+			continue
+		}
+		jobs = append(jobs, job("H_c09_indep", "cfg", core, "seedA", da.Markdown, "posA", ra.Intn(len(da.Markdown)+1), "wA", 1, "seedB", db.Markdown, "posB", ra.Intn(len(db.Markdown)+1), "wB", 1))
+	}
+	// reference definitions from anywhere
+	for r := 0; r < 5; r++ {
+		for _, ws := range []string{" ", "  ", " \n ", "\t"} {
+			c := []string{core, gfm}[r%2]
+			jobs = append(jobs, job("H_c09_refs", "cfg", c, "ref", r, "ws", ws))
+		}
+		// windows inside X with fixed label spelling flips still symbolic
+		xl := 24
+		step := 5
+		if thorough {
+			step = 1
+		}
+		for q := int(seed) % step; q <= xl; q += step {
+			jobs = append(jobs, job("H_c09_refs", "cfg", core, "ref", r, "ws", " ", "window", 1, "pos", q, "flipmask", ra.Intn(1<<20)))
+		}
+	}
+	p.Jobs = jobs
+	p.Bounds = map[string]interface{}{
+		"S(an)xS(bn)":   "A and B jointly symbolic, every byte string: lengths (an,bn) with an+bn<=2 x {core unsafe, GFM safe} and (2,1) core (thorough: all an+bn<=3 both configurations, (2,2), (3,0), (0,3))",
+		"alphabets":     fmt.Sprintf("A of length %d and B of length %d over the same alphabet; A of %d with B of 1 and A of 1 with B of %d over neighbouring alphabets (quick: a seeded third of them): %q", na, nb, na+1, na+1, alphas),
+		"corpus":        fmt.Sprintf("%d seeded (closed corpus document A, offset) pairs with one symbolic byte and a free 1-byte B; the same for B with a free 1-byte A; %d pairs of corpus documents with one symbolic byte in each", nwin, nwin/2),
+		"closed(A)":     "syntactic sufficient condition assumed by the solver: no ` ~ < [ CR in A; last non-blank line of A has no TAB and no run of 4 spaces. B: no [ and no CR",
+		"references":    "5 reference templates x 4 whitespace spellings inside labels x every per-letter case flip of every use of a label (symbolic bits); plus a 1-byte symbolic window (not ` ~ < : CR) at seeded offsets of X under a seeded case-flip mask",
+		"outside":       "semantically closed documents that do not meet the syntactic condition; longer A/B",
+	}
+	p.Rule = "three conversions per path (A, B, joined) / two (definitions on top, at the end)"
+	return p, nil
+}
+
+func init() { Plans["C09"] = planC09 }
